@@ -555,14 +555,18 @@ impl Emitter {
                 }
 
                 // Skip comment processing AND `last_token` update for
-                // duplicated / stripped / skipped tokens — several emit
-                // helpers rely on `last_token` pointing at the most recent
-                // non-duplicated token.
-                if duplicated.is_some() || self.build_opt.strip_comments || self.skip_comment {
+                // duplicated / skipped tokens — several emit helpers rely on
+                // `last_token` pointing at the most recent non-duplicated
+                // token.
+                if duplicated.is_some() || self.skip_comment {
                     return;
                 }
 
-                self.process_comment(x, will_push);
+                // `strip_comments` drops the comments only; `last_token` must
+                // still advance exactly as it does when comments are kept.
+                if !self.build_opt.strip_comments {
+                    self.process_comment(x, will_push);
+                }
             }
             Mode::Align => {
                 self.aligner.token(x);
